@@ -72,7 +72,11 @@ def programs(draw, kinds=KINDS, force_with=True):
     conds = draw(st.lists(st.booleans(), min_size=16, max_size=16))
     sched = draw(st.lists(st.sampled_from(["send"] * 5 + ["throw:E1", "throw:E2"]), min_size=8, max_size=8))
     extarg = draw(st.sampled_from([False] * 7 + [True]))
-    return finish({"kind": kind, "body": body, "conds": conds, "sched": sched, "extarg": extarg})
+    # what else lives in the frame's fast-locals area besides plain locals (it decides where the value stack starts):
+    # 1 a comprehension whose loop variable is captured (inlined into the frame on 3.12), 2 an argument that is
+    # closed over, 3 both, 4 a local that becomes a cell because a nested def captures it
+    closure = draw(st.sampled_from([0] * 5 + [1, 2, 3, 4]))
+    return finish({"kind": kind, "body": body, "conds": conds, "sched": sched, "extarg": extarg, "closure": closure})
 
 
 def _has_with(stmts):
@@ -212,6 +216,8 @@ def features(prog):
                 f.add("match")
 
     walk(prog["body"], False)
+    if prog.get("closure"):
+        f.add("frame_layout.closure_%d" % prog["closure"])
     if prog.get("extarg"):
         f.add("extended_arg")
     f.add("kind." + prog["kind"])
